@@ -371,8 +371,33 @@ theorem two_pow_inRange {t : IntTy} {k : Nat} (hs : t.signed = true) (hk : k < t
   simp only [hs, ite_true]
   omega
 
+/-- the common type of two signed types is signed and has at least the digits of each -/
+theorem usualArith_signed {L R : IntTy} (hL : L.signed = true) (hR : R.signed = true)
+    (hLb : 1 ≤ L.bits) (hRb : 1 ≤ R.bits) :
+    (usualArith L R).signed = true ∧ L.digits ≤ (usualArith L R).digits ∧ R.digits ≤ (usualArith L R).digits := by
+  have pLs := promote_signed_of_signed hL
+  have pRs := promote_signed_of_signed hR
+  have dL := promote_digits_le hLb
+  have dR := promote_digits_le hRb
+  have bL := IntTy.bits_eq_digits_succ pLs (promote_bits_ge hLb)
+  have bR := IntTy.bits_eq_digits_succ pRs (promote_bits_ge hRb)
+  rw [usualArith_key]
+  simp only [key, pLs, pRs, ite_true]
+  split
+  · exact ⟨pLs, dL, by omega⟩
+  · exact ⟨pRs, by omega, dR⟩
+
+/-- division under a rounding tag on operands of two different storage types -/
+theorem repOp_div_mixed (c : Cfg) {L R : IntTy} (hL : 1 ≤ L.bits) (hR : 1 ≤ R.bits) {a b : Int}
+    (haL : L.InRange a) (hbR : R.InRange b) (haT : (usualArith L R).InRange a) (hbT : (usualArith L R).InRange b)
+    (hb0 : b ≠ 0) (hq : (usualArith L R).InRange (roundDiv (modeOf c.mode) a b)) :
+    repOp c .div (L, a) (R, b) = .ok (usualArith L R, roundDiv (modeOf c.mode) a b) := by
+  have h := binOp_div_eval c.mode hL hR haL hbR haT hbT hb0 hq
+  simp only [repOp, h]
+
 /-- the conversion is the overflow-checked narrowing of the rescaled value — exactly rescaled when the
-exponent does not grow, rounded otherwise — outside the two open defect classes -/
+exponent does not grow, rounded otherwise (a mixed-type rounding division by `2^k`, whose divisor has
+its own storage type) — outside the two open defect classes -/
 theorem convert_core (c : Cfg) (D : Nat) (E : Int) (x : SNum) (hx : x.InRange) (hnd : ¬ KnownDefect c E x) :
     convert c D E x = (narrowDigits c D (rescale (rmode c.mode) E x.exp x.value) >>= fun v => .ok ⟨D, E, v⟩) ∨
       ∃ m, convert c D E x = .ill m := by
@@ -385,35 +410,46 @@ theorem convert_core (c : Cfg) (D : Nat) (E : Int) (x : SNum) (hx : x.InRange) (
     · left; simp only [h1, Res.bind_ok, rescale, hE, ite_true]
     · right; exact ⟨m, by simp only [h1, bind_ill]⟩
   · have hlt : x.exp < E := by omega
-    have hk : (E - x.exp).toNat < x.digits := by
+    have hk : (E - x.exp).toNat ≤ x.digits := by
       refine Decidable.byContradiction fun h => hnd (.inl ⟨hlt, by omega⟩)
     have hq : (roundDiv (rmode c.mode) x.value (2^(E - x.exp).toNat)).natAbs
         ≤ 2^(x.digits - (E - x.exp).toNat) - 1 := by
       refine Decidable.byContradiction fun h => hnd (.inr ⟨hlt, hk, by omega⟩)
+    have hk' : ¬ (E - x.exp).toNat > x.digits := by omega
     cases hR : repTy x.digits narrowest with
     | none => right; exact ⟨"digits exceed the widest integer", by simp only [convert, hE, ite_false, hR]⟩
     | some rep =>
-      left
-      have ⟨hRs, hRd, hRb⟩ := setDigits_spec hR
-      have hRs' : rep.signed = true := hRs
-      have hb1 : 1 ≤ rep.bits := by omega
-      have hPs : (promote rep).signed = true := promote_signed_of_signed hRs'
-      have hxR : rep.InRange x.value :=
-        inRange_of_fits (by omega) (fits_of_inRange hx) (fun h => by rw [hRs'] at h; cases h)
-      have hpR : rep.InRange (2^(E - x.exp).toNat) := two_pow_inRange hRs' (by omega)
-      have hp0 : (2:Int)^(E - x.exp).toNat ≠ 0 := by have := two_pow_pos (E - x.exp).toNat; omega
-      have hqf := roundDiv_fits (modeOf c.mode) hp0 (fits_of_inRange hx)
-      have hqP : (promote rep).InRange (roundDiv (modeOf c.mode) x.value (2^(E - x.exp).toNat)) :=
-        inRange_of_fits (by have := promote_digits_le hb1; omega) hqf (fun h => by rw [hPs] at h; cases h)
-      have hmid : -(2^(x.digits - (E - x.exp).toNat) - 1 : Int) ≤ roundDiv (modeOf c.mode) x.value (2^(E - x.exp).toNat) ∧
-          roundDiv (modeOf c.mode) x.value (2^(E - x.exp).toNat) ≤ 2^(x.digits - (E - x.exp).toNat) - 1 := by
-        rw [rmode_eq_modeOf] at hq
-        have := Nat.two_pow_pos (x.digits - (E - x.exp).toNat)
-        exact bound_of_natAbs_le (by omega)
-      have hk' : ¬ (E - x.exp).toNat ≥ x.digits := by omega
-      simp only [convert, hE, ite_false, hR, hk', repOp_div c hb1 hxR hpR hp0 hqP, Res.bind_ok,
-        narrowDigits_fits c _ hmid, rescale, rmode_eq_modeOf]
-      rfl
+      cases hDr : repTy (1 + (E - x.exp).toNat) narrowest with
+      | none =>
+        right
+        exact ⟨"digits exceed the widest integer", by simp only [convert, hE, ite_false, hR, hk', hDr]⟩
+      | some drep =>
+        left
+        have ⟨hRs, hRd, hRb⟩ := setDigits_spec hR
+        have hRs' : rep.signed = true := hRs
+        have hb1 : 1 ≤ rep.bits := by omega
+        have ⟨hDs, hDd, hDb⟩ := setDigits_spec hDr
+        have hDs' : drep.signed = true := hDs
+        have hd1 : 1 ≤ drep.bits := by omega
+        have ⟨hTs, hTL, hTR⟩ := usualArith_signed hRs' hDs' hb1 hd1
+        have hxR : rep.InRange x.value :=
+          inRange_of_fits (by omega) (fits_of_inRange hx) (fun h => by rw [hRs'] at h; cases h)
+        have hxT : (usualArith rep drep).InRange x.value :=
+          inRange_of_fits (by omega) (fits_of_inRange hx) (fun h => by rw [hTs] at h; cases h)
+        have hpR : drep.InRange (2^(E - x.exp).toNat) := two_pow_inRange hDs' (by omega)
+        have hpT : (usualArith rep drep).InRange (2^(E - x.exp).toNat) := two_pow_inRange hTs (by omega)
+        have hp0 : (2:Int)^(E - x.exp).toNat ≠ 0 := by have := two_pow_pos (E - x.exp).toNat; omega
+        have hqf := roundDiv_fits (modeOf c.mode) hp0 (fits_of_inRange hx)
+        have hqT : (usualArith rep drep).InRange (roundDiv (modeOf c.mode) x.value (2^(E - x.exp).toNat)) :=
+          inRange_of_fits (by omega) hqf (fun h => by rw [hTs] at h; cases h)
+        have hmid : -(2^(x.digits - (E - x.exp).toNat) - 1 : Int) ≤ roundDiv (modeOf c.mode) x.value (2^(E - x.exp).toNat) ∧
+            roundDiv (modeOf c.mode) x.value (2^(E - x.exp).toNat) ≤ 2^(x.digits - (E - x.exp).toNat) - 1 := by
+          rw [rmode_eq_modeOf] at hq
+          have := Nat.two_pow_pos (x.digits - (E - x.exp).toNat)
+          exact bound_of_natAbs_le (by omega)
+        simp only [convert, hE, ite_false, hR, hk', hDr, repOp_div_mixed c hb1 hd1 hxR hpR hxT hpT hp0 hqT,
+          Res.bind_ok, narrowDigits_fits c _ hmid, rescale, rmode_eq_modeOf]
+        rfl
 
 theorem convert_agrees (c : Cfg) (D : Nat) (E : Int) (x : SNum) (hx : x.InRange) (hnd : ¬ KnownDefect c E x)
     (hwf : ∀ m, convert c D E x ≠ .ill m) :
